@@ -27,9 +27,15 @@ def e2e_stage(ctx, n_cases):
         et = [1.0]
         with warnings.catch_warnings():
             warnings.simplefilter("ignore")
+            # the documented spellings of the solver: the enum member, the plain string, and a config that went
+            # through pulser's abstract representation (which stores the string)
+            spelling = ("enum", "string", "roundtrip")[i % 3]
             cfg = emu_mps.MPSConfig(observables=[Energy(evaluation_times=et), Occupation(evaluation_times=et)],
-                                    log_level=logging.CRITICAL, solver=Solver.DMRG,
+                                    log_level=logging.CRITICAL,
+                                    solver=Solver.DMRG if spelling == "enum" else "dmrg",
                                     optimize_qubit_ordering=(i % 2 == 1))
+            if spelling == "roundtrip":
+                cfg = emu_mps.MPSConfig.from_abstract_repr(cfg.to_abstract_repr())
             try:
                 res = emu_mps.MPSBackend._run_from_sequence_data(D.to_sequence_data(prob), cfg)
             except RuntimeError as ex:
@@ -43,7 +49,8 @@ def e2e_stage(ctx, n_cases):
         below = w[0] - e
         gap = w[1] - w[0]
         worst = max(worst, abs(e - w[0]))
-        case = {"kind": "e2e-dmrg", "n": n, "steps": steps, "E": e, "E0": float(w[0]), "gap": float(gap)}
+        case = {"kind": "e2e-dmrg", "n": n, "steps": steps, "E": e, "E0": float(w[0]), "gap": float(gap),
+                "solver_spelling": spelling}
         ctx.count_case(case, nontrivial=True)
         ser = {k: (v.tolist() if hasattr(v, "tolist") else v) for k, v in prob.items()}
         if below > 1e-8 * max(1.0, abs(w[0])):
